@@ -129,9 +129,47 @@ func c15(r *core.Run) {
 			}
 		}
 		fl := &core.Flow{Fn: hq, Entry: core.StateSet(0).Add(0), Tags: true, Inline: func(cal *ssa.Function) bool { return p.IsPrivateHelper(cal) && cal.Pkg == hq.Pkg }}
+		// the decoded query may reach the test as a result of a decoding helper: every return of
+		// the helper yields the query field or the empty string
+		isQuery := func(v ssa.Value) bool {
+			var call *ssa.Call
+			idx := 0
+			switch x := core.Strip(v).(type) {
+			case *ssa.Extract:
+				call, _ = x.Tuple.(*ssa.Call)
+				idx = x.Index
+			case *ssa.Call:
+				call = x
+			}
+			if call == nil {
+				return false
+			}
+			cal := call.Common().StaticCallee()
+			if cal == nil || len(cal.Blocks) == 0 || cal.Pkg != hq.Pkg {
+				return false
+			}
+			n, fromField := 0, false
+			for _, ret := range core.Returns(cal) {
+				if idx >= len(ret.Results) {
+					return false
+				}
+				n++
+				for _, src := range phiSources(ret.Results[idx]) {
+					if sv, isC := core.ConstString(src.V); isC && sv == "" {
+						continue
+					}
+					if f, ok := core.LoadedField(src.V); ok && f == qfld {
+						fromField = true
+						continue
+					}
+					return false
+				}
+			}
+			return n > 0 && fromField
+		}
 		fl.BranchOn = func(cond ssa.Value, succ int, st int) (int, bool) {
 			ci := core.Cond(cond)
-			if ci.Kind == "constcmp" && ci.HasFld && ci.Field == qfld && ci.Const != nil && ci.Const.ExactString() == `""` {
+			if ci.Kind == "constcmp" && ((ci.HasFld && ci.Field == qfld) || isQuery(ci.X)) && ci.Const != nil && ci.Const.ExactString() == `""` {
 				truth := succ == 0
 				if ci.Negate {
 					truth = !truth
@@ -213,7 +251,14 @@ func c15(r *core.Run) {
 		r.Unres("G1", "queryEventExpire", "missing")
 		return
 	}
-	cbF := core.Field{Struct: "queryEvent", Name: "cb"}
+	cbF, okCb := fieldByType(p, "", "queryEvent", func(t types.Type) bool {
+		sig, ok := t.Underlying().(*types.Signature)
+		return ok && sig.Params().Len() == 1 && core.TypeName(sig.Params().At(0).Type()) == "QueryRequest"
+	})
+	if !okCb {
+		r.Unres("G1", "queryEvent.<callback>", "no single field of type func(QueryRequest)")
+		return
+	}
 	isNilCb := func(c ssa.CallInstruction) bool {
 		if !core.IsDynamic(c) || len(c.Common().Args) != 1 || !isNilConst(c.Common().Args[0]) {
 			return false
@@ -280,7 +325,7 @@ func c15(r *core.Run) {
 	// expiry is the timer queue's callback
 	serve := a.Serve
 	tqOK := false
-	for _, c := range core.Calls(serve) {
+	for _, c := range helperCalls(p, serve) {
 		if cal := c.Common().StaticCallee(); cal != nil && strings.HasSuffix(cal.String(), "timerqueue.New") {
 			if mc, ok := core.Strip(c.Common().Args[0]).(*ssa.MakeClosure); ok {
 				if f, ok := mc.Fn.(*ssa.Function); ok && strings.HasPrefix(f.Name(), exp.Name()) {
@@ -294,7 +339,7 @@ func c15(r *core.Run) {
 		durF, okD := setterField(p, "", "Service", "SetQueryEventDuration", 0)
 		firstGo := firstWorkerStart(p, a)
 		good, why := false, "no timerqueue.New in serve"
-		for _, c := range core.Calls(serve) {
+		for _, c := range helperCalls(p, serve) {
 			cal := c.Common().StaticCallee()
 			if cal == nil || !strings.HasSuffix(cal.String(), "timerqueue.New") {
 				continue
@@ -309,7 +354,7 @@ func c15(r *core.Run) {
 			if c.Value() != nil && c.Value().Referrers() != nil {
 				for _, rf := range *c.Value().Referrers() {
 					if st, ok := rf.(*ssa.Store); ok {
-						if _, isF := core.FieldOf(st.Addr); isF && firstGo != nil && core.Dominates(st, firstGo) {
+						if _, isF := core.FieldOf(st.Addr); isF && beforeWorkers(p, a, st, firstGo) && (st.Parent() == serve || unconditionalIn(st)) {
 							stored = true
 						}
 					}
@@ -332,6 +377,10 @@ func c15(r *core.Run) {
 		}
 	}
 	r.Check(drain != nil && enq != nil && core.Dominates(drain, enq), "N1", core.FuncName(exp), "drain-before-nil-call-enqueued", posOf(p, drain), "the subscription is drained before the final nil call is queued", "the expiry does not drain the subscription before queueing the nil call")
+	// ... and the nil call is queued whatever the drain returns: the end of the query event is owed to
+	// the callback exactly once, also when the subscription is already gone (connection closed,
+	// service restarted on another connection)
+	r.Check(enq != nil && unconditionalIn(enq), "N1", core.FuncName(exp), "nil-call-enqueued-on-every-path", posOf(p, enq), "every path through the expiry queues the nil call", "the expiry can return without queueing the nil call (for instance when draining the subscription fails): the callback is never told that the query event ended")
 
 	// ---- S1 --------------------------------------------------------------
 	var inbox, subCall, pub, add ssa.CallInstruction
@@ -484,6 +533,30 @@ func c15(r *core.Run) {
 							if st, isSt := in.(*ssa.Store); isSt && st.Val == arg {
 								if f, isF := core.FieldOf(st.Addr); isF {
 									fld, ok = f, true
+								}
+							}
+						}
+					}
+					if !ok {
+						// the caller is itself a private helper that was handed the channel: follow the
+						// parameters up to the value's origin and look for the store of that value
+						one := func(v ssa.Value) ssa.Value {
+							vs := paramArgs(p, v, 0)
+							if len(vs) != 1 {
+								return nil
+							}
+							return vs[0]
+						}
+						if root := one(arg); root != nil && root != arg {
+							for _, f2 := range p.FuncsOfPkg("") {
+								for _, b := range f2.Blocks {
+									for _, in := range b.Instrs {
+										if st, isSt := in.(*ssa.Store); isSt && one(st.Val) == root {
+											if f, isF := core.FieldOf(st.Addr); isF {
+												fld, ok = f, true
+											}
+										}
+									}
 								}
 							}
 						}
